@@ -135,6 +135,15 @@ class Ctx:
     def finish(self) -> int:
         cov = self.coverage
         cov['distinct_nontrivial'] = len(self._distinct)
+        # keys the evidence schema types: keep them well-typed whatever a component put there
+        if 'exhaustive' in cov and not isinstance(cov['exhaustive'], bool):
+            cov['exhaustive_detail'] = cov.pop('exhaustive')
+        for k in ('states', 'transitions', 'traces_validated_against_impl', 'programs', 'disagreements_checked'):
+            if k in cov and not (isinstance(cov[k], int) and not isinstance(cov[k], bool)):
+                cov[k + '_detail'] = cov.pop(k)
+        for k in ('rule', 'explanation', 'checker_cmd'):
+            if k in cov and not isinstance(cov[k], str):
+                cov[k] = json.dumps(cov[k], default=str)
         wall = time.time() - self.t0
         ev = dict(
             property_id=self.prop, tier=self.tier, seed=self.seed, level=self.level,
@@ -370,6 +379,31 @@ def drive(lines: list[str], timeout=1800) -> list[str]:
         raise InfraError(f'driver: rc={p.returncode} got {len(out)} answers for {len(lines)} requests\n'
                          f'{p.stderr[-2000:]}')
     return out
+
+
+_NOASLR = None
+
+
+def no_aslr_prefix() -> list[str]:
+    """`setarch <arch> -R`: lexical items hash by hash((__class__, sort_tuple)) and a class hashes by its address, so the
+    iteration order of constant / sentence sets (hence tie-breaks of the proof search) varies from process to process with
+    address-space randomisation even under PYTHONHASHSEED=0 and the node/branch hook.  Without ASLR a worker process is
+    reproducible; if setarch is unavailable verdicts are unaffected, only which tableaux are seen varies."""
+    global _NOASLR
+    if _NOASLR is None:
+        import platform
+        import shutil
+        found = []
+        exe = shutil.which('setarch')
+        if exe:
+            cmd = [exe, platform.machine(), '-R']
+            try:
+                if subprocess.run(cmd + ['true'], capture_output=True, timeout=20).returncode == 0:
+                    found = cmd
+            except Exception:  # noqa
+                pass
+        _NOASLR = found
+    return list(_NOASLR)
 
 
 def repo_frames(exc: BaseException) -> bool:
